@@ -3,7 +3,7 @@
    injectivity.  Stdlib only; H and L are Section variables (universally quantified in the
    closed statements).  NB: never use bare [subst] while [length x = L] is in context. *)
 From Coq Require Import List NArith Bool Lia Arith.
-From LP Require Import Prelude Pay Merkle.
+From LP Require Import Prelude Pay Semver Merkle.
 Import ListNotations.
 Local Open Scope N_scope.
 
@@ -724,6 +724,58 @@ Proof.
   cbn [tw_run]. destruct (tw_execute now sender m s) as [s'|] eqn:E; [|apply IH].
   rewrite IH. apply tw_roots_immutable with now sender m. exact E.
 Qed.
+
+(* ---------- migrate is a frame; histories with migrates ---------- *)
+Theorem wl_migrate_frame : forall a n v s s', wl_migrate a n v s = Ok s' -> s' = s.
+Proof. intros a n v s s' E. unfold wl_migrate in E. destruct (merkle_migrate_ok a n v); inversion E. reflexivity. Qed.
+Theorem tw_migrate_frame : forall a n v s s', tw_migrate a n v s = Ok s' -> s' = s.
+Proof. intros a n v s s' E. unfold tw_migrate in E. destruct (merkle_migrate_ok a n v); inversion E. reflexivity. Qed.
+
+Theorem merkle_migrate_ok_iff : forall a n v,
+  merkle_migrate_ok a n v = true <->
+  a = true /\ n = true /\ exists x, v = Some x /\ ver_ltb MERKLE_CUR_VERSION x = false.
+Proof.
+  intros a n v. unfold merkle_migrate_ok. split.
+  - intro E. apply andb_true_iff in E. destruct E as [E E3]. apply andb_true_iff in E. destruct E as [E1 E2].
+    destruct v as [x|]; [|discriminate]. apply negb_true_iff in E3. repeat split; auto. exists x. auto.
+  - intros (E1 & E2 & x & E3 & E4). rewrite E1, E2, E3, E4. reflexivity.
+Qed.
+
+Theorem wl_root_immutable_step : forall st s s', wl_apply st s = Ok s' -> wl_root s' = wl_root s.
+Proof.
+  intros [now sender m|a n v] s s' E; cbn [wl_apply] in E.
+  - apply wl_root_immutable with now sender m. exact E.
+  - apply wl_migrate_frame in E. rewrite E. reflexivity.
+Qed.
+Theorem wl_root_immutable_steps : forall h s, wl_root (wl_run_steps h s) = wl_root s.
+Proof.
+  induction h as [|st r IH]; intro s; [reflexivity|].
+  cbn [wl_run_steps]. destruct (wl_apply st s) as [s'|] eqn:E; [|apply IH].
+  rewrite IH. apply wl_root_immutable_step with st. exact E.
+Qed.
+Theorem tw_roots_immutable_step : forall st s s', tw_apply st s = Ok s' -> tw_roots s' = tw_roots s.
+Proof.
+  intros [now sender m|a n v] s s' E; cbn [tw_apply] in E.
+  - apply tw_roots_immutable with now sender m. exact E.
+  - apply tw_migrate_frame in E. rewrite E. reflexivity.
+Qed.
+Theorem tw_roots_immutable_steps : forall h s, tw_roots (tw_run_steps h s) = tw_roots s.
+Proof.
+  induction h as [|st r IH]; intro s; [reflexivity|].
+  cbn [tw_run_steps]. destruct (tw_apply st s) as [s'|] eqn:E; [|apply IH].
+  rewrite IH. apply tw_roots_immutable_step with st. exact E.
+Qed.
+
+(* hence whatever was accepted / rejected before a history is accepted / rejected after it
+   (flat: HasMember depends on the root only) *)
+Theorem wl_has_member_stable : forall H h s m p,
+  wl_has_member H (wl_run_steps h s) m p = wl_has_member H s m p.
+Proof. intros H h s m p. unfold wl_has_member. rewrite wl_root_immutable_steps. reflexivity. Qed.
+
+(* tiered: a migrate leaves the answer at every instant unchanged (stages and roots kept) *)
+Theorem tw_has_member_after_migrate : forall H a n v s s' now m p,
+  tw_migrate a n v s = Ok s' -> tw_has_member H now s' m p = tw_has_member H now s m p.
+Proof. intros H a n v s s' now m p E. apply tw_migrate_frame in E. rewrite E. reflexivity. Qed.
 
 (* ---------- tiered: which root is consulted ---------- *)
 
